@@ -55,11 +55,11 @@ var callables = []callable{
 func argOfKind(r *h.Rand, k byte) string {
 	switch k {
 	case 's':
-		return r.Pick([]string{`"a"`, `"<b>"`, `s`, `e`, `g`, `"x" + s`, `st.B`, `ls[0]`, `"ab"`})
+		return r.Pick([]string{`"a"`, `"<b>"`, `s`, `e`, `g`, `"x" + s`, `st.B`, `ls[0]`, `"ab"`, `ident(st).B`})
 	case 'i':
-		return r.Pick([]string{`1`, `2`, `i`, `j`, `z`, `i + 1`, `li[0]`, `st.A`, `2.0`, `f`})
+		return r.Pick([]string{`1`, `2`, `i`, `j`, `z`, `i + 1`, `li[0]`, `st.A`, `2.0`, `f`, `ident(st).A`})
 	default:
-		return r.Pick([]string{`1`, `"q"`, `s`, `i`, `t`, `l`, `li`, `st.A`, `1.5`, `"<"`, `m`})
+		return r.Pick([]string{`1`, `"q"`, `s`, `i`, `t`, `l`, `li`, `st.A`, `1.5`, `"<"`, `m`, `ident(st).B`, `ident(st).A`})
 	}
 }
 
